@@ -49,6 +49,26 @@ def premap(ctx, b):
     bi, t, name = vv[0]
     a = t['args'][1]
     arr_t = b.op_term(a, (bi, None))
+    # the adjusted copy may be produced by a helper fn(&self, &Joints) -> Joints of the wrapper: then the helper is the pre-map
+    at = strip(arr_t)
+    if isinstance(at, tuple) and at[0] == 'call' and at[1] in ctx.prog.bodies and len(at) == 4:
+        hb = ctx.prog.bodies[at[1]]
+        if hb.kind != 'Closure' and hb.arg_count == 2 and '[f64; 6]' in hb.local_ty(0) and '[f64; 6]' in hb.local_ty(2) and \
+                util.is_param(at[2], 1) and util.is_param(at[3], 2):
+            ctx.fn(hb)
+            rt = hb.return_term()
+            rl = None
+            x = rt
+            while isinstance(x, tuple) and x[0] in ('ref', 'deref'):
+                x = x[1]
+            if isinstance(x, tuple) and x[0] in ('var', 'mutb'):
+                rl = x[2] if x[0] == 'var' else x[1]
+            if rl is not None:
+                init = [d for d in hb.defs().get(rl, []) if d[4]]
+                if len(init) == 1:
+                    A = strip(hb._def_term(init[0]))
+                    ws = partial_writes(hb, lambda lhs, i, j: lhs['local'] == rl and len(lhs['proj']) == 1)
+                    return {'A': A, 'writes': ws, 'loc': rl, 'site': bi, 'inner': name, 'body': hb}
     # find the local behind &joints
     loc = _root_local(b, a, bi)
     if loc is None:
@@ -190,8 +210,9 @@ def run(ctx):
         i, j, it, v = pm['writes'][0]
         A = algebra.canon(pm['A'])
         ok_src = util.is_param(pm['A'], 2)
-        ctx.check(ok_src, 'R16.2', m + '/joints-source', b.where(i, j), b.path, 'the adjusted vector is not a copy of the joints argument', found=show(pm['A']))
-        fw[m] = (algebra.canon(it), algebra.canon(v), A, b, (i, j))
+        wb = pm.get('body', b)
+        ctx.check(ok_src, 'R16.2', m + '/joints-source', wb.where(i, j), wb.path, 'the adjusted vector is not a copy of the joints argument', found=show(pm['A']))
+        fw[m] = (algebra.canon(it), algebra.canon(v), A, wb, (i, j))
     inv = {}
     for m in util.INVERSE_METHODS:
         b = prog.trait_impl_method(PAR, 'Kinematics', m)
